@@ -40,3 +40,11 @@ func HSpecSqlNearT(i int, sep int) {
 	vSpecAll(s)
 	vCover("checked")
 }
+
+// HSpecSqlSeq (C06): implementation vs reference on every token-class sequence with lo <= code <= hi.
+func HSpecSqlSeq(k int, lo int, hi int) {
+	code := vIntIn(lo, hi)
+	s := vSeq(k, code)
+	vSpecAll(s)
+	vCover("checked")
+}
